@@ -39,12 +39,14 @@
                    '(g_cur <= g_q && g_q < (size_t)__CPROVER_POINTER_OFFSET(ptr)) ==> g_data0[g_q] != delim'],
     'decreases': 'g_n - (size_t)__CPROVER_POINTER_OFFSET(ptr)'},
  ],
- 'witness': {'unwind': 9},
+ 'fallback': 'ghost-free',
+ 'witness': {'unwind': 6},
 } @*/
 #include "c19_harness.h"
 size_t g_n, g_q, g_base, g_stop, g_cur;
 #include "cxx/igris_string_cxx.c"
 
+#define C19_ISD_CHAR(c) ((c) == delim)
 void harness(void)
 {
     WIT(size_t, n);
@@ -53,6 +55,9 @@ void harness(void)
     WIT(char, delim);
     WIT_ARR(char, content, 7);
     __CPROVER_assume(n <= VC_MAXOBJ);
+#ifdef WITNESS_MODE
+    __CPROVER_assume(n <= 4); /* concretisation / fallback runs: three nested scans, keep the unwinding small */
+#endif
     /* known finding: `while (*ptr == delim)` has no end test: the byte AT the end of the buffer is read on every call (and the scan runs on
        when that byte is the delimiter).  Carved out by one readable spare byte that is not the delimiter (what a std::string's terminator
        is for delim != 0), probed on the exact-size buffer */
@@ -61,11 +66,16 @@ void harness(void)
     FILL(data, n + spare, content);
     if (spare) __CPROVER_assume(data[n] != delim);
     g_data0 = data; g_n = n; g_t = t; g_q = q;
+#ifdef WITNESS_MODE
+    g_all_n = 0;
+#endif
     g_ntok = 0; g_ts = g_tl = g_ts1 = g_last_s = g_last_end = g_base = g_stop = g_cur = 0; g_empty = 0;
 
     cxx_split_char(data, n, delim);
 
+#if !VC_FALLBACK
     __CPROVER_assert(g_stop == n && g_ntok <= n, "split(char): the scan ends at the end of the buffer");
+#endif
     if (g_ntok == 0) {
         __CPROVER_assert(!(q < n) || data[q] == delim, "split(char): no token: the buffer holds delimiters only");
     } else {
@@ -84,5 +94,23 @@ void harness(void)
             __CPROVER_assert(g_last_end == g_ts + g_tl, "split(char): the last token recorded is token ntok-1");
         }
     }
+#ifdef WITNESS_MODE
+    /* direct reference over the (small, concrete) buffer: maximal runs of non-delimiters, in order, compared with the WHOLE recorded
+       sequence.  Depends on the recorder calls of the extracted code only, not on injected ghost statements: decides the bounded fallback run */
+    {
+        size_t rs[C19_REC_MAX], rl[C19_REC_MAX], rn = 0, pos = 0;
+        while (pos < n) {
+            while (pos < n && C19_ISD_CHAR(data[pos])) pos++;
+            if (pos == n) break;
+            size_t s0 = pos;
+            while (pos < n && !C19_ISD_CHAR(data[pos])) pos++;
+            if (rn < C19_REC_MAX) { rs[rn] = s0; rl[rn] = pos - s0; }
+            rn++;
+        }
+        __CPROVER_assert(g_all_n == rn, "split(char): number of tokens of the reference tokeniser (direct reference)");
+        for (size_t i = 0; i < rn && i < g_all_n && i < C19_REC_MAX; i++)
+            __CPROVER_assert(g_all_s[i] == rs[i] && g_all_l[i] == rl[i], "split(char): token i is the i-th maximal run of non-delimiters (direct reference)");
+    }
+#endif
     CANARY("split(char) end reachable");
 }
